@@ -412,8 +412,26 @@ ALLOW_RAISE = {
     ('Compiler._compile', 'NotImplementedError'): 'default of the dispatcher: unreachable for nodes the grammar produces (R-EXHAUSTIVE)',
     ('Compiler._compile_from', 'NotImplementedError'): 'after the three node kinds the grammar admits in FROM',
     ('Compiler._compile_pivot_by', 'RuntimeError'): 'after the two element kinds the grammar admits in PIVOT BY',
-    ('Compiler.compile', 'TypeError'): 'wrong kind of `parameters` argument: misuse of the DB-API call, not a statement rejection',
 }
+# TypeError for the wrong kind of `parameters` argument is misuse of the DB-API call, not a statement rejection: allowed wherever
+# the raise is guarded by an isinstance test against Mapping / Sequence (whichever function holds the check)
+PARAM_KIND_WHY = 'wrong kind of `parameters` argument: misuse of the DB-API call, not a statement rejection'
+
+
+def _param_kind_guard(fi, node):
+    parents = {}
+    for n in ast.walk(fi.node):
+        for c in ast.iter_child_nodes(n):
+            parents[id(c)] = n
+    cur = node
+    while id(cur) in parents:
+        cur = parents[id(cur)]
+        if isinstance(cur, ast.If):
+            for x in ast.walk(cur.test):
+                if isinstance(x, ast.Call) and isinstance(x.func, ast.Name) and x.func.id == 'isinstance' and len(x.args) == 2 \
+                        and unparse(x.args[1]).split('.')[-1] in ('Mapping', 'Sequence'):
+                    return True
+    return False
 
 
 def _exc_family(P, module, name):
@@ -444,6 +462,8 @@ def rule_raise(P) -> RuleResult:
                     res.ok({'site': fi.fq, 'raises': name})
                 elif (fi.qualname, name) in ALLOW_RAISE:
                     res.ok({'site': fi.fq, 'raises': name, 'allowed': ALLOW_RAISE[(fi.qualname, name)]})
+                elif name == 'TypeError' and _param_kind_guard(fi, node):
+                    res.ok({'site': fi.fq, 'raises': name, 'allowed': PARAM_KIND_WHY})
                 else:
                     res.fail(construct, 'raise:class', f'{fi.qualname} rejects input with {name}, which is not a ProgrammingError '
                              f'(ParseError / CompilationError)', loc(fi, node))
@@ -540,6 +560,21 @@ def rule_guards(P) -> RuleResult:
         if not cands:
             raise AnalysisError(f'anchor vanished: {row["func"]} (guard {row["id"]})')
         found = None
+        # the guard may live in a helper of the named function: the named function first, then the functions it calls
+        if row['func'] != '*':
+            seen = {id(c) for c in cands}
+            work = list(cands)
+            while work:
+                f0 = work.pop()
+                for n in ast.walk(f0.node):
+                    if isinstance(n, ast.Call) and isinstance(n.func, ast.Attribute) and isinstance(n.func.value, ast.Name) \
+                            and n.func.value.id == 'self' and f'Compiler.{n.func.attr}' in m.functions:
+                        g = m.functions[f'Compiler.{n.func.attr}']
+                        if id(g) not in seen and not any('register' in unparse(d) for d in g.node.decorator_list) \
+                                and g.name not in ('_compile',):
+                            seen.add(id(g))
+                            cands.append(g)
+                            work.append(g)
         for fi in cands:
             if row['kind'] == 'if-raise':
                 for n in ast.walk(fi.node):
